@@ -71,6 +71,11 @@ func H13b() {
 		return
 	}
 	valid := h07Count(alpha, reqs, r.Length)
+	if prime := vChoice("prime", vParam("primes", 1)); prime > 0 && len(r.RequireSets) > 0 {
+		sib := h06Sibling(r, prime)
+		sib.SuccessProbability()
+		vReach("primed")
+	}
 	var sp float32
 	var acceptable bool
 	panicked := vTry(func() {
